@@ -62,6 +62,17 @@ class Target:
     def logl_vector(self, X):
         return np.array([self._logl_point(x) for x in np.atleast_2d(X)])
 
+    def logl_vector_reuse(self, X):
+        """A vectorised likelihood that re-uses its output buffer between calls (legal: the values it returns
+        for a call are correct when it returns; callers that keep the array must copy it)."""
+        X = np.atleast_2d(X)
+        buf = getattr(self, "_buf", None)
+        if buf is None or len(buf) != len(X):
+            buf = self._buf = np.empty(len(X))
+        for i, x in enumerate(X):
+            buf[i] = self._logl_point(x)
+        return buf
+
     def logl_blob(self, x):
         # blob: a different injective function of x
         return self._logl_point(x), float(np.sum(x * np.arange(1, self.n_dim + 1)) + 0.125 * x[0] ** 3)
@@ -99,6 +110,8 @@ def build_sampler(conf: dict, rec: psrun.Recorder | None, out_dir=None):
     ev = c["evaluation"]
     if ev == "vector":
         ll, vec, bd = tgt.logl_vector, True, None
+    elif ev == "vector_reuse":
+        ll, vec, bd = tgt.logl_vector_reuse, True, None
     elif ev == "blobs":
         ll, vec, bd = tgt.logl_blob, False, "float"
     else:
